@@ -1,5 +1,5 @@
 (* Proofs/DequeAbaProofs.v — (generalisation of Proofs/DequeConcProofs.v: node reuse allowed)
-   the lock-free deque under the guard aba = false, for ALL thread counts,
+   the repaired lock-free deque, UNGUARDED, for ALL thread counts,
    programs and schedules: every step of every thread preserves [Core] (Michael's chain invariant
    plus the register invariants) and is labelled by what it does to the abstract two-ended list
    ([Trans]); conservation and linearizability follow by induction over the schedule
@@ -33,6 +33,11 @@ Section CoreFacts.
 
   Lemma chain_pos a : In a c -> 0 < a < fresh g.
   Proof. intros H. apply live_pos. apply (co_live _ _ _ _ HC). apply in_app_l. exact H. Qed.
+
+  Lemma chain_nz a : In a c -> epoch g a <> 0.
+  Proof.
+    intros H E. pose proof (co_live _ _ _ _ HC a (in_app_l _ _ _ H)) as L. unfold live in L. rewrite E in L. discriminate.
+  Qed.
 
   Lemma ends_nil s : aend s (anc g) = 0 -> c = [].
   Proof.
@@ -152,13 +157,14 @@ Proof.
 Qed.
 
 Lemma J_ext g g' c pend l :
+  (forall x, In x c -> epoch g x <> 0) ->
   anc g' = anc g -> heap g' = heap g -> epoch g' = epoch g -> J g c pend l -> J g' c pend l.
 Proof.
-  intros Ea Eh Ee. apply J_frame; auto.
+  intros Hnz Ea Eh Ee. apply J_frame; auto.
   - intros x _ _ H. unfold live. rewrite Ee, Eh. auto.
   - intros x. rewrite Ee. lia.
   - intros x s _. rewrite Ee, Eh. auto.
-  - intros x s _ _. rewrite Eh. lia.
+  - intros x s _. rewrite Eh. lia.
 Qed.
 
 Lemma shape_frame g g' c : anc g' = anc g -> (forall x, In x c -> heap g' x = heap g x) -> shape_ok g c -> shape_ok g' c.
@@ -189,8 +195,8 @@ Proof.
   - rewrite Ee, Ef. apply (co_alloc _ _ _ _ HC).
   - rewrite Ef. apply (co_fresh _ _ _ _ HC).
   - rewrite Eh, Ep, Ee, Ef. apply (co_fl _ _ _ _ HC).
-  - apply J_ext with (g := g); assumption.
-  - intros t' _. apply J_ext with (g := g); auto. apply (co_J _ _ _ _ HC).
+  - apply J_ext with (g := g); try assumption. apply (chain_nz _ _ _ _ HC).
+  - intros t' _. apply J_ext with (g := g); auto; [apply (chain_nz _ _ _ _ HC)|apply (co_J _ _ _ _ HC)].
   - intros t' n Hne A B. apply (co_excl _ _ _ _ HC t t' n); auto.
   - apply (co_excl _ _ _ _ HC).
   - intros a Ha. destruct (co_pend _ _ _ _ HC a Ha) as (t' & s & E). right. exists t', s. split; [|exact E].
@@ -210,9 +216,10 @@ Lemma step_priv g (ls : locals dq_local) t c pend n nd g' l' :
   Core g ls c pend -> owns (dpc (ls t)) = Some n -> live g n -> ~ In n (c ++ pend) -> holds (ls t) = [] ->
   anc g' = anc g -> heap g' = hupd (heap g) n nd -> epoch g' = epoch g -> pool g' = pool g -> fresh g' = fresh g ->
   J g' c pend l' -> owns (dpc l') = Some n ->
+  (forall s, ltag (outward s (heap g n)) <= ltag (outward s nd)) ->
   Core g' (upd ls t l') c pend /\ data_frame g g' (c ++ pend).
 Proof.
-  intros HC Ho En Nn Hh Ea Eh Ee Ep Ef HJ Ho'.
+  intros HC Ho En Nn Hh Ea Eh Ee Ep Ef HJ Ho' Htg.
   assert (Hc : forall x, In x (c ++ pend) -> heap g' x = heap g x).
   { intros x Hx. rewrite Eh. apply hupd_other. intros ->. exact (Nn Hx). }
   split; [|intros x Hx; rewrite Hc by exact Hx; reflexivity].
@@ -232,7 +239,9 @@ Proof.
       intros ->. apply (co_excl _ _ _ _ HC t t' n); auto.
     + intros x. rewrite Ee. lia.
     + intros x s Hx. rewrite Ee. split; [reflexivity|]. left. rewrite Hc by (apply in_app_l; exact Hx). reflexivity.
-    + intros x s Hx _. rewrite Hc; [lia|]. apply in_or_app. exact Hx.
+    + apply (chain_nz _ _ _ _ HC).
+    + intros x s _. rewrite Eh. destruct (N.eq_dec x n) as [->|Hne']; [rewrite hupd_same; apply Htg|].
+      rewrite hupd_other by exact Hne'. lia.
     + apply (co_J _ _ _ _ HC).
   - intros t' x Hne A B. rewrite Ho' in A. inversion A; subst x. apply (co_excl _ _ _ _ HC t t' n); auto.
   - apply (co_excl _ _ _ _ HC).
@@ -250,6 +259,7 @@ Lemma fl_alloc_spec g ls c pend : Core g ls c pend ->
   let g' := fst (fl_alloc g) in let a := snd (fl_alloc g) in
   anc g' = anc g /\ dlog g' = dlog g /\ aba g' = aba g /\ N.odd (epoch g a) = false /\ epoch g' a = epoch g a + 1 /\
   (forall x, x <> a -> epoch g' x = epoch g x /\ heap g' x = heap g x) /\
+  (epoch g a <> 0 -> heap g' a = heap g a) /\
   0 < a < fresh g' /\ fresh g <= fresh g' /\
   (exists fl, flchain (heap g') (pool g') fl /\ NoDup fl /\ forall x, In x fl -> N.odd (epoch g' x) = false /\ 0 < x < fresh g').
 Proof.
@@ -278,7 +288,7 @@ Lemma step_alloc g (ls : locals dq_local) t c pend l' :
   Core (fst (fl_alloc g)) (upd ls t l') c pend /\ data_frame g (fst (fl_alloc g)) (c ++ pend) /\
   dlog (fst (fl_alloc g)) = dlog g /\ aba (fst (fl_alloc g)) = aba g.
 Proof.
-  intros HC Hh Hn HJ Ho. destruct (fl_alloc_spec _ _ _ _ HC) as (Ea & Ed & Eb & Od & E1 & Eo & Ha & Hf & Hfl).
+  intros HC Hh Hn HJ Ho. destruct (fl_alloc_spec _ _ _ _ HC) as (Ea & Ed & Eb & Od & E1 & Eo & Ere & Ha & Hf & Hfl).
   set (g' := fst (fl_alloc g)) in *. set (a := snd (fl_alloc g)) in *.
   assert (La : live g' a) by (unfold live; rewrite E1; apply odd_succ_false; exact Od).
   assert (Na : forall x, live g x -> x <> a) by (intros x Hx ->; unfold live in Hx; congruence).
@@ -303,7 +313,9 @@ Proof.
     + intros x Hx _ Lx. destruct (Eo x (Na x Lx)) as [E2 E3]. unfold live. rewrite E2, E3. auto.
     + intros x s Hx. assert (x <> a) by (intros ->; apply Nc; apply in_app_l; exact Hx).
       destruct (Eo x H) as [E2 E3]. rewrite E2, E3. auto.
-    + intros x s Hx _. rewrite Hc; [lia|]. apply in_or_app. exact Hx.
+    + apply (chain_nz _ _ _ _ HC).
+    + intros x s Hx. destruct (N.eq_dec x a) as [->|Hne']; [rewrite (Ere Hx); lia|].
+      rewrite (proj2 (Eo x Hne')). lia.
     + apply (co_J _ _ _ _ HC).
   - intros t' x Hne A B. rewrite Ho in A. inversion A; subst x.
     exact (Na a (owns_live _ _ _ _ HC _ _ (co_J _ _ _ _ HC t') B) eq_refl).
@@ -361,13 +373,10 @@ Proof.
     + intros x Ho Hn Ex. assert (x <> a) by (intros ->; auto). unfold live. cbn [fl_free epoch].
       rewrite eupd_other by exact H. split; [exact Ex|apply Hc; exact H].
     + intros x. cbn [fl_free epoch]. unfold eupd. destruct (x =? a) eqn:EX; [apply N.eqb_eq in EX; subst x|]; lia.
-    + intros x Hx Ee. assert (x <> a).
-      { intros ->. cbn [fl_free epoch] in Ee. rewrite eupd_same in Ee. lia. }
-      rewrite Ep in Hx. apply in_app_or in Hx. apply in_or_app. cbn [In] in Hx.
-      destruct Hx as [Hx|[Hx|Hx]]; auto. congruence.
     + intros x s' Hx. assert (x <> a) by (intros ->; auto). cbn [fl_free epoch]. rewrite eupd_other by exact H.
       split; [reflexivity|]. left. rewrite Hc by exact H. reflexivity.
-    + intros x s' _ _. cbn [fl_free heap]. unfold hupd. destruct (x =? a) eqn:E; [|lia].
+    + apply (chain_nz _ _ _ _ HC).
+    + intros x s' _. cbn [fl_free heap]. unfold hupd. destruct (x =? a) eqn:E; [|lia].
       apply N.eqb_eq in E. subst x. destruct s'; cbn; lia.
     + apply (co_J _ _ _ _ HC).
   - intros t' n _ A. unfold complete in A. cbn in A. discriminate.
@@ -436,7 +445,8 @@ Proof.
       exact (owns_notin_c _ _ _ _ HC _ _ (co_J _ _ _ _ HC t') Hx Hp).
     + intros x. rewrite Ee. lia.
     + intros x s' Hx. rewrite Ee. split; [reflexivity|]. apply CH. exact Hx.
-    + intros x s' _ _. destruct (N.eq_dec x p) as [->|Hne']; [|rewrite Ho' by exact Hne'; lia].
+    + apply (chain_nz _ _ _ _ HC).
+    + intros x s' _. destruct (N.eq_dec x p) as [->|Hne']; [|rewrite Ho' by exact Hne'; lia].
       destruct (side_cases s s') as [->| ->].
       * rewrite Hpp, outward_set_outward. cbn [ltag]. lia.
       * rewrite Hpp, outward_set_outward_opp. lia.
@@ -604,13 +614,15 @@ Lemma step_PInit g (ls : locals dq_local) t c pend s v n :
   Step g ls t c pend (fst (dq_tstep tt t g (ls t))) (snd (dq_tstep tt t g (ls t))).
 Proof.
   intros HC PC. pcfacts HC t PC HJ. destruct HJ as (E1 & Nin & Hop). unfold dq_tstep. rewrite PC. cbn [fst snd].
-  set (nd := {| nleft := null_link; nright := null_link; ndata := v |}).
+  set (nd := {| nleft := {| lptr := 0; ltag := ltag (nleft (heap g n)) + 1 |};
+                  nright := {| lptr := 0; ltag := ltag (nright (heap g n)) + 1 |}; ndata := v |}).
   destruct (step_priv g ls t c pend n nd (set_heap g (hupd (heap g) n nd)) (goto (ls t) (PLoad s n)) HC) as [C' DF];
     try reflexivity; auto.
   - rewrite PC. reflexivity.
   - holdsnil PC.
   - unfold J. cbn [goto dpc]. split; [exact E1|]. split; [exact Nin|].
     cbn [set_heap heap]. rewrite hupd_same. exact Hop.
+  - intros s'. unfold nd. destruct s'; cbn [outward nleft nright ltag]; lia.
   - exists c, pend, LTau. split; [exact C'|]. apply trans_tau; auto; [linnil PC|holdsnil PC].
 Qed.
 
@@ -629,7 +641,7 @@ Lemma step_PStore g (ls : locals dq_local) t c pend s n lrs :
   Step g ls t c pend (fst (dq_tstep tt t g (ls t))) (snd (dq_tstep tt t g (ls t))).
 Proof.
   intros HC PC. pcfacts HC t PC HJ. destruct HJ as ((E1 & Nin & Hop) & Sn & St & Nz). unfold dq_tstep. rewrite PC. cbn [fst snd].
-  set (nd := set_inward s (heap g n) {| lptr := aend s lrs; ltag := 0 |}).
+  set (nd := set_inward s (heap g n) {| lptr := aend s lrs; ltag := ltag (inward s (heap g n)) + 1 |}).
   destruct (step_priv g ls t c pend n nd (set_heap g (hupd (heap g) n nd)) (goto (ls t) (PCas s n lrs false)) HC) as [C' DF];
     try reflexivity; auto.
   - rewrite PC. reflexivity.
@@ -639,6 +651,7 @@ Proof.
       rewrite data_set_inward. exact Hop.
     + split; [exact St|]. split; [exact Nz|]. cbn [set_heap heap]. rewrite hupd_same. unfold nd.
       rewrite inward_set_inward. reflexivity.
+  - intros s'. unfold nd. destruct s, s'; cbn [outward inward set_inward nleft nright ltag]; lia.
   - exists c, pend, LTau. split; [exact C'|]. apply trans_tau; auto; [linnil PC|holdsnil PC].
 Qed.
 
@@ -905,8 +918,8 @@ Proof.
   destruct (anchor_eqb (anc g) lrs) eqn:EA.
   - apply anchor_eqb_eq in EA. subst lrs. cbn [fst snd]. apply tau_local; auto; [|kownsame].
     unfold J. cbn [goto dpc]. split; [exact HK|]. split; [exact HS|]. split; [exact Hsec|]. split; [exact Np|].
-    split; [exact Le|]. destruct (Hl' eq_refl) as [[H|H] Ee]; [left; auto|right; intros _; split; [exact H|]].
-    left. apply (second_in _ _ _ _ (Hsec eq_refl)).
+    split; [exact Le|]. destruct (Hl' eq_refl) as [[H|H] Ee]; [left; auto|right; split; [exact H|]].
+    apply (chain_nz _ _ _ _ HC). apply (second_in _ _ _ _ (Hsec eq_refl)).
   - apply tau_resume; auto. rewrite PC. reflexivity.
 Qed.
 
@@ -924,18 +937,18 @@ Proof.
 Qed.
 
 Lemma step_S5 g (ls : locals dq_local) t c pend k s lrs prev pn e :
-  Core g ls c pend -> dpc (ls t) = S5 k s lrs prev pn e -> aba (fst (dq_tstep tt t g (ls t))) = false ->
+  Core g ls c pend -> dpc (ls t) = S5 k s lrs prev pn e ->
   Step g ls t c pend (fst (dq_tstep tt t g (ls t))) (snd (dq_tstep tt t g (ls t))).
 Proof.
   intros HC PC. pcfacts HC t PC HJ. destruct HJ as (HK & HS & Hsec & Np & Le & Hl'). unfold dq_tstep. rewrite PC.
-  intros AB.
   assert (Hh : holds (ls t) = []) by holdsnil PC.
   assert (Hl : lin_event t g (ls t) = []) by linnil PC.
   destruct (link_eqb (outward s (heap g (lptr prev))) pn) eqn:EL.
   2:{ apply tau_resume; auto. rewrite PC. reflexivity. }
-  apply link_eqb_eq in EL. cbn [fst set_aba aba] in AB. apply orb_false_iff in AB. destruct AB as [_ AB].
-  apply negb_false_iff, N.eqb_eq in AB.
-  destruct Hl' as [(EA & _ & _)|Hlt]; [|destruct (Hlt AB) as [Hlt' _]; unfold lnk_lt in Hlt'; rewrite EL in Hlt'; lia].
+  apply link_eqb_eq in EL.
+  (* the CAS succeeded, so the expected value is the current one: by the invariant the snapshot is
+     still current (a stale expected value has a strictly smaller tag than the link, for ever) *)
+  destruct Hl' as [(EA & _ & _)|[Hlt' _]]; [|unfold lnk_lt in Hlt'; rewrite EL in Hlt'; lia].
   subst lrs. destruct (Hsec eq_refl) as [r V]. destruct HS as (Sn & St & Nz). cbn [fst snd].
   set (p := lptr prev) in *. set (n := aend s (anc g)) in *.
   set (g' := set_aba _ _).
@@ -985,10 +998,10 @@ Qed.
 
 (* ------------------------------------------------------------------ every step *)
 Theorem core_step t g (ls : locals dq_local) c pend :
-  Core g ls c pend -> aba (fst (dq_tstep tt t g (ls t))) = false ->
+  Core g ls c pend ->
   Step g ls t c pend (fst (dq_tstep tt t g (ls t))) (snd (dq_tstep tt t g (ls t))).
 Proof.
-  intros HC RE. casepc (ls t).
+  intros HC. casepc (ls t).
   - apply step_DIdle; assumption.
   - exfalso. pcfacts HC t PC HJ. exact HJ.
   - eapply step_PInit; eauto.
@@ -1006,4 +1019,42 @@ Proof.
   - eapply step_S4; eauto.
   - eapply step_S5; eauto.
   - eapply step_S6; eauto.
+Qed.
+
+(* ------------------------------------------------------------------ the ghost flag [aba] is never raised *)
+(* [aba] records "a link CAS succeeded although its target was freed / re-allocated since the
+   expected value was read" (the F15 event).  On the repaired code it cannot happen: a link CAS
+   succeeds only in the first disjunct of the S5 invariant, where the epoch is the one read at S3. *)
+Theorem aba_step t g (ls : locals dq_local) c pend :
+  Core g ls c pend -> aba g = false -> aba (fst (dq_tstep tt t g (ls t))) = false.
+Proof.
+  intros HC AB.
+  assert (FA : aba (fst (fl_alloc g)) = aba g) by (unfold fl_alloc; destruct (pool g =? 0); reflexivity).
+  casepc (ls t); unfold dq_tstep; rewrite PC.
+  - destruct (dtodo (ls t)) as [|[s v|s] rest]; [exact AB| |].
+    + destruct (fl_alloc g) as [g1 a1]. cbn [fst] in *. congruence.
+    + unfold pop_load. destruct (aend s (anc g) =? 0); [exact AB|]. destruct (al (anc g) =? ar (anc g)); [exact AB|].
+      destruct (ast (anc g)); exact AB.
+  - exact AB.
+  - exact AB.
+  - unfold push_load. destruct (aend s (anc g) =? 0); [exact AB|]. destruct (ast (anc g)); exact AB.
+  - exact AB.
+  - destruct (anchor_eqb (anc g) lrs); [destruct emp|]; exact AB.
+  - unfold pop_load. destruct (aend s (anc g) =? 0); [exact AB|]. destruct (al (anc g) =? ar (anc g)); [exact AB|].
+    destruct (ast (anc g)); exact AB.
+  - destruct (anchor_eqb (anc g) lrs); exact AB.
+  - exact AB.
+  - destruct (anchor_eqb (anc g) lrs); exact AB.
+  - exact AB.
+  - destruct (aend s lrs =? 0); exact AB.
+  - destruct (anchor_eqb (anc g) lrs); [exact AB|]. destruct k; exact AB.
+  - destruct (lptr prev =? 0); [exact AB|].
+    destruct (lptr (outward s (heap g (lptr prev))) =? aend s lrs); exact AB.
+  - destruct (anchor_eqb (anc g) lrs); [exact AB|]. destruct k; exact AB.
+  - pcfacts HC t PC HJ. destruct HJ as (_ & _ & _ & _ & _ & Hl').
+    destruct (link_eqb (outward s (heap g (lptr prev))) pn) eqn:EL; [|destruct k; exact AB].
+    apply link_eqb_eq in EL. cbn [fst set_aba aba]. rewrite AB. cbn [orb].
+    destruct Hl' as [(_ & _ & Ee)|[Hlt' _]]; [|unfold lnk_lt in Hlt'; rewrite EL in Hlt'; lia].
+    rewrite Ee, N.eqb_refl. reflexivity.
+  - destruct (anchor_eqb (anc g) lrs); destruct k; exact AB.
 Qed.
